@@ -44,12 +44,14 @@ def _run(ctx, replay):
     prop, tier, seed = ctx.prop, ctx.tier, ctx.seed
     vlib.build_harness(ctx, ["wakereplay"])
     rng = random.Random(seed)
+    timer_replay = False
     states = transitions = 0
     mc = []
     scheds = []
     if replay:
         obj = json.load(open(replay))
-        scheds = [obj["schedule"]]
+        scheds = [] if obj["schedule"].get("timer") else [obj["schedule"]]
+        timer_replay = bool(obj["schedule"].get("timer"))
     else:
         # design level: safety on the larger configuration, liveness, and the two
         # variants that must be rejected (otherwise the invariant is vacuous)
@@ -106,6 +108,19 @@ def _run(ctx, replay):
             results += rs
     if len(results) != len(scheds):
         raise ToolError("wakereplay returned %d results for %d schedules" % (len(results), len(scheds)))
+    # timer sessions: deliverability that no writer announces (the retention of an ordered predecessor
+    # runs out while a pull waits) - real time, a few seconds, run side by side
+    if not replay or timer_replay:
+        tout = os.path.join(ctx.scratch, "timers.ndjson")
+        r = subprocess.run([os.path.join(ctx.bin, "wakereplay"), "-timers", "2" if tier == "quick" else "6", "-out", tout, "-scratch", db],
+                           capture_output=True, text=True, timeout=300)
+        if r.returncode != 0:
+            raise ToolError("wakereplay -timers failed:\n" + (r.stdout + r.stderr)[-2000:])
+        tres = [json.loads(l) for l in open(tout)]
+        for t in tres:
+            by_sched = {"id": t["id"], "steps": [], "kinds": t["kinds"], "timer": True}
+            scheds.append(by_sched)
+        results += tres
     by_id = {s["id"]: s for s in scheds}
     errs = [r for r in results if r["status"] in ("error", "drift")]
     if len(errs) > max(2, len(results) // 50):
